@@ -1,4 +1,5 @@
 import SeataModel.Driver.ATParse
+import SeataModel.AT.World
 namespace Seata.Driver.AT
 open Seata Seata.DB Seata.AT Seata.Driver Seata.Driver.ATParse
 
@@ -12,50 +13,37 @@ def showItem (it : Item) : String :=
   let k := match it.kind with | .insert => "I" | .update => "U" | .delete => "D"
   s!"{k}[{showIRows it.before}|{showIRows it.after}]"
 
-structure BranchSt where
-  b : Branch
-  hasLog : Bool          -- an undo_log row exists (status normal)
-  marker : Bool := false -- a GlobalFinished marker row exists
-  deriving Repr
-
 structure St where
   sc : Schema
   cfg : Cfg
-  t : Table
-  branches : List BranchSt := []
+  w : World
   out : List String := []
 
 /-- run one local transaction (tokens already parsed) -/
 def runLocal (st : St) (ltx : LocalTx) : St :=
-  match localPhase1 st.sc st.cfg st.t ltx with
-  | .error _ => { st with out := st.out ++ ["L:err"] }
-  | .ok (t', b) =>
-    -- a branch is registered when there is at least one image and one lock key entry
-    if ltx.isEmpty then { st with t := t', out := st.out ++ ["L:ok:nobranch"] }
+  match runLocalTx st.sc st.cfg st.w ltx with
+  | none => { st with out := st.out ++ ["L:err"] }
+  | some w' =>
+    if ltx.isEmpty then { st with w := w', out := st.out ++ ["L:ok:nobranch"] }
     else
-      let hasLog := !b.items.isEmpty
-      let img := if hasLog then "+".intercalate (b.items.map showItem) else "noundolog"
-      { st with t := t', branches := st.branches ++ [{ b := b, hasLog := hasLog }],
-                out := st.out ++ [s!"L:ok:k={showKeys b.lockKeys}:img={img}"] }
+      match w'.branches.getLast? with
+      | none => { st with w := w', out := st.out ++ ["L:ok:nobranch"] }
+      | some bs =>
+        let img := if bs.hasLog then "+".intercalate (bs.b.items.map showItem) else "noundolog"
+        { st with w := w', out := st.out ++ [s!"L:ok:k={showKeys bs.b.lockKeys}:img={img}"] }
 
-def rollbackBranch (st : St) (i : Nat) : St :=
-  match st.branches[i]? with
+def rollbackBranchS (st : St) (i : Nat) : St :=
+  match st.w.branches[i]? with
   | none => { st with out := st.out ++ ["rb:nobranch"] }
-  | some bs =>
-    if !bs.hasLog then
-      -- no undo log: a marker is inserted (or is already there: then the insert fails on the unique key)
-      if bs.marker then { st with out := st.out ++ ["rb:ok"] }
-      else { st with branches := st.branches.set i { bs with marker := true }, out := st.out ++ ["rb:ok"] }
-    else
-      let r := undoBranch st.sc st.cfg st.t bs.b
-      if r.2 then { st with t := r.1, branches := st.branches.set i { bs with hasLog := false }, out := st.out ++ ["rb:ok"] }
-      else { st with out := st.out ++ ["rb:fail"] }
+  | some _ =>
+    let r := rollbackBranch st.sc st.cfg st.w i
+    { st with w := r.1, out := st.out ++ [if r.2 then "rb:ok" else "rb:fail"] }
 
 def showFinal (st : St) : String :=
-  let logs := (st.branches.zipIdx.filter fun p => p.1.hasLog).map fun p => toString (p.2 + 1)
-  s!"t={showTable st.t} undo={if logs.isEmpty then "-" else ",".intercalate logs}"
+  let logs := (st.w.branches.zipIdx.filter fun p => p.1.hasLog).map fun p => toString (p.2 + 1)
+  s!"t={showTable st.w.t} undo={if logs.isEmpty then "-" else ",".intercalate logs}"
 
-instance : Inhabited St := ⟨{ sc := { ncols := 0, pk := [] }, cfg := { validate := false, onlyCare := false }, t := [] }⟩
+instance : Inhabited St := ⟨{ sc := { ncols := 0, pk := [] }, cfg := { validate := false, onlyCare := false }, w := { t := [] } }⟩
 
 /-- script interpreter -/
 partial def runScript (st : St) : List String → Option LocalTx → St
@@ -67,14 +55,14 @@ partial def runScript (st : St) : List String → Option LocalTx → St
     else if tok.startsWith "F" then
       let st1 := flush st
       match parseStmt (sdrop tok 1) with
-      | some (s, a) => match apply st1.sc st1.t a s with
-        | .ok (t', _) => runScript { st1 with t := t', out := st1.out ++ ["F:ok"] } rest none
+      | some (s, a) => match apply st1.sc st1.w.t a s with
+        | .ok (t', _) => runScript { st1 with w := { st1.w with t := t' }, out := st1.out ++ ["F:ok"] } rest none
         | .error _ => runScript { st1 with out := st1.out ++ ["F:err"] } rest none
       | none => { st1 with out := st1.out ++ ["bad-foreign"] }
     else if tok == "RB" then
       let st1 := flush st
-      let n := st1.branches.length
-      let st2 := (List.range n).reverse.foldl rollbackBranch st1
+      let n := st1.w.branches.length
+      let st2 := (List.range n).reverse.foldl rollbackBranchS st1
       runScript { st2 with out := st2.out ++ [showFinal st2] } rest none
     else if tok.startsWith "RBx" then
       -- a rollback delivery during which a database statement fails: the undo transaction is rolled
@@ -90,20 +78,14 @@ partial def runScript (st : St) : List String → Option LocalTx → St
       match stmts.mapM parseStmt with
       | none => { st1 with out := st1.out ++ ["bad-stmt-in-LR"] }
       | some ltx =>
-        match localPhase1 st1.sc st1.cfg st1.t ltx with
-        | .error _ => runScript { st1 with out := st1.out ++ ["L:err"] } rest' none
-        | .ok (_, b) =>
-          if b.items.isEmpty then
-            -- nothing to flush: the local commit goes through, the marker stays
-            runScript { st1 with out := st1.out ++ ["L:early-rb:ok:committed"],
-                                 branches := st1.branches ++ [{ b := { items := [], lockKeys := b.lockKeys }, hasLog := false, marker := true }] } rest' none
-          else
-            runScript { st1 with out := st1.out ++ ["L:early-rb:ok:late-commit-refused"],
-                                 branches := st1.branches ++ [{ b := { items := [], lockKeys := b.lockKeys }, hasLog := false, marker := true }] } rest' none
+        match earlyRollbackThenCommit st1.sc st1.cfg st1.w ltx with
+        | none => runScript { st1 with out := st1.out ++ ["L:err"] } rest' none
+        | some (w', committed) =>
+          runScript { st1 with w := w', out := st1.out ++ [if committed then "L:early-rb:ok:committed" else "L:early-rb:ok:late-commit-refused"] } rest' none
     else if tok.startsWith "RB" then
       let st1 := flush st
       match (sdrop tok 2).toNat? with
-      | some i => let st2 := rollbackBranch st1 (i - 1); runScript { st2 with out := st2.out ++ [showFinal st2] } rest none
+      | some i => let st2 := rollbackBranchS st1 (i - 1); runScript { st2 with out := st2.out ++ [showFinal st2] } rest none
       | none => { st1 with out := st1.out ++ ["bad-rb"] }
     else if tok == "SNAP" then
       let st1 := flush st
@@ -128,7 +110,7 @@ def handle (ws : List String) : String :=
       match rowToks.mapM parseRow with
       | none => "bad-rows"
       | some rows =>
-        let st := runScript { sc := sc, cfg := cfg, t := rows } script none
+        let st := runScript { sc := sc, cfg := cfg, w := { t := rows } } script none
         joinSp st.out
   | _ => "bad-op"
 
